@@ -693,6 +693,8 @@ func main() {
 			r = runOrder(sc)
 		} else if sc.Kind == "timing" {
 			r = runTiming(sc)
+		} else if sc.Kind == "backlog" {
+			r = runBacklog(sc)
 		} else {
 			r = runScenario(sc)
 		}
@@ -718,6 +720,15 @@ func main() {
 		sc := Scenario{Kind: "timing", Seed: c.Seed, NPubs: 1}
 		r := runTiming(sc)
 		record(c, r)
+	}
+	// long backlogs, around typical buffer sizes
+	sizes := []int{63, 64, 65, 128, 129}
+	if c.Thorough() {
+		sizes = append(sizes, 257, 1000)
+	}
+	for _, n := range sizes {
+		sc := Scenario{Kind: "backlog", Seed: c.Seed, NPubs: 1, Rounds: [][]Action{{{Pub: 0, Kind: "explicit", Adv: n}}}}
+		record(c, runBacklog(sc))
 	}
 	// random scenarios, spread over child processes (the yield hook is process-global)
 	n := c.Pick(3000, 30000)
